@@ -249,6 +249,10 @@ def run(ck, tier):
     F = factsmod.Facts("ws")
     from . import influence as _infl
     _infl.run(ck, F, 'C12')
+    from . import mustpass as _mp
+    _mp.run(ck, F, 'C12')
+    from . import c12x
+    c12x.run(ck, F)
     run_native(ck, F)
     run_wrapping(ck, F)
     run_fov(ck, F)
